@@ -14,15 +14,23 @@ DRIVER = [
     ("C20b", "TfPwaV.Model.Bins", "Bins.handle"),
     ("C20h", "TfPwaV.Model.Hist", "Hist.handle"),
     ("C20n", "TfPwaV.Gen.InterpNDF", "InterpNDF.handle"),
+    ("C20p", "TfPwaV.Gen.PercentileF", "PercentileF.handle"),
+    ("C20g", "TfPwaV.Gen.HistOpsF", "HistOpsF.handle"),
 ]
-LEAN_TARGETS = ["TfPwaV.Props.C20", "TfPwaV.Props.C20b", "TfPwaV.Props.C20c", "TfPwaV.Props.C20d", "TfPwaV.Gen.SamplerF", "TfPwaV.Gen.InterpF", "TfPwaV.Gen.InterpNDF"]
-PROP_MODULES = ["TfPwaV.Props.C20", "TfPwaV.Props.C20b", "TfPwaV.Props.C20c", "TfPwaV.Props.C20d"]
+LEAN_TARGETS = ["TfPwaV.Props.C20", "TfPwaV.Props.C20b", "TfPwaV.Props.C20c", "TfPwaV.Props.C20d", "TfPwaV.Props.C20e", "TfPwaV.Props.C20f", "TfPwaV.Props.C20g",
+                "TfPwaV.Gen.SamplerF", "TfPwaV.Gen.InterpF", "TfPwaV.Gen.InterpNDF", "TfPwaV.Gen.PercentileF", "TfPwaV.Gen.HistOpsF"]
+PROP_MODULES = ["TfPwaV.Props.C20", "TfPwaV.Props.C20b", "TfPwaV.Props.C20c", "TfPwaV.Props.C20d", "TfPwaV.Props.C20e", "TfPwaV.Props.C20f", "TfPwaV.Props.C20g"]
 ALL_MODULES = ["TfPwaV.Model.Bins", "TfPwaV.Model.Hist", "TfPwaV.Proofs.Sampler", "TfPwaV.Proofs.Interp", "TfPwaV.Proofs.InterpDeriv",
-               "TfPwaV.Proofs.Bins", "TfPwaV.Props.C20", "TfPwaV.Props.C20b", "TfPwaV.Props.C20c", "TfPwaV.Props.C20d", "TfPwaV.Proofs.InterpND", "TfPwaV.Proofs.InterpNDInt", "TfPwaV.Proofs.ScalarR"]
+               "TfPwaV.Proofs.Bins", "TfPwaV.Props.C20", "TfPwaV.Props.C20b", "TfPwaV.Props.C20c", "TfPwaV.Props.C20d", "TfPwaV.Proofs.InterpND", "TfPwaV.Proofs.InterpNDInt", "TfPwaV.Proofs.ScalarR",
+               "TfPwaV.Proofs.Percentile", "TfPwaV.Props.C20e", "TfPwaV.Props.C20f", "TfPwaV.Props.C20g"]
 ASSUMPTIONS = [
     "sampler theorems are about the R-instance of templates/Sampler.lean.in; the Float instance of the same text is compared bit-for-bit with multi_sampling/single_sampling2/GenTest on recorded proposal batches and uniform streams (phsp, amp, importance_f and tf.random.uniform are inputs of the model)",
     "weights are non-negative (|amplitude|^2); phsp(n) returns exactly n events; the loop may not terminate (all weights zero): exact-count theorem is conditional on the loop exiting",
-    "np.digitize on an increasing edge array is modelled as a linear scan (first bin whose right edge is > v, else the last bin); np.cumsum as the sequential running sum; np.percentile and np.histogram are parameters: cut points / returned edges are inputs of the models",
+    "np.digitize on an increasing edge array is modelled as a linear scan (first bin whose right edge is > v, else the last bin); np.cumsum as the sequential running sum; np.histogram is a parameter (returned edges are inputs of Model/Hist); in Model/Bins the cut points are inputs, in templates/Percentile.lean.in they are COMPUTED by a model of np.percentile (numpy 2.x method 'linear': q = pct/100, virtual index (N-1) q, floor / fractional part, _lerp with its t >= 0.5 branch, indexes_above_bounds) + 1e-6; np.partition is modelled as an insertion sort",
+    "populations_near_equal is about the R-instance of templates/Percentile.lean.in at the exact quantile q = k/n; the Float instance of the same text is compared bit-for-bit with np.percentile and with every cut point of single_split_bound. In double arithmetic (j/n*100)/100 can fall an ulp below k/n, so that numpy's floor index is one less than floor((N-1)k/n) with gamma ~ 1 (2.8% of all (N<=400, n<=20, k)); the returned value then differs from the exact quantile by rounding only. The theorem's tie parameter m counts values in a window [v, v + 1e-6) (real 10^-6; the search uses 1.000001e-6 + 8 ulp)",
+    "acceptance-rejection counting theorems (C20f): uniforms on the grid j/K, every K; weights 0 <= w <= M; thinning bounds 0 < m <= M. That tf.random.uniform is uniform and independent is NOT proved (chi-square, thorough tier)",
+    "templates/HistOps.lean.in models np.sum as a sequential sum and takes np.isinf(error) as a flag list; the Float instance is compared on dyadic data (contents multiples of 1/4, errors powers of two), where every summation order gives the same double; scale_to's two divisions are guarded by hypotheses (sum of contents != 0, mean bin width != 0)",
+    "generate_toy / generate_toy_p are run on a stub configuration (get_decay / get_amplitude / eval_amplitude) with gen= / gen_p= and the amplitude given by the recorded streams; applications.gen_data / gen_mc (file based, own rejection loop) are not modelled",
     "LinearInterp theorems: strictly increasing nodes, node values >= 0, int_all > 0, u in [0,1) (u = 1 is covered when the last bin has positive mass); 'node values not all zero' does NOT imply int_all > 0 because of the |k| <= epsilon flattening (a bin whose left node is 0 and whose slope is below epsilon gets mass 0)",
     "adaptive-bin partition theorems assume monotone cut chains lb <= c1 <= ... <= rb (checked on every recorded run by the model's validLoop; np.percentile(...)+1e-6 can exceed the parent bin's right edge only when half of a bin's values lie within 1e-6 of it)",
     "'the sample follows the model density' is statistical: validated by chi-square tests at false-alarm probability <= 1e-9 (thorough tier), not proved",
@@ -155,10 +163,34 @@ def run_multi(scn, max_iter=400):
         return d, m
 
     m0 = None if scn["m0"] is None else tf.constant(scn["m0"], dtype=tf.float64)
+    via = scn.get("via", "multi")
     try:
         with mock.patch.object(tf.random, "uniform", fake_uniform), mock.patch.object(G, "single_sampling2", wrap), quiet():
-            ret, status = G.multi_sampling(phsp, amp, scn["N"], max_N=scn["maxN"], force=scn["force"], max_weight=m0,
-                                           importance_f=imp if scn["imp"] else None, display=False)
+            if via == "multi":
+                ret, status = G.multi_sampling(phsp, amp, scn["N"], max_N=scn["maxN"], force=scn["force"], max_weight=m0,
+                                               importance_f=imp if scn["imp"] else None, display=False)
+            else:
+                # the wrappers ConfigLoader.generate_toy / generate_toy_p (config_loader/sample.py) around multi_sampling,
+                # on a stub configuration whose amplitude / phase-space generator are the recorded streams
+                import types
+                import tf_pwa.config_loader.sample as S
+                seen = {}
+                origm = S.multi_sampling
+
+                def wrapm(*a, **k):
+                    seen["max_weight"] = k.get("max_weight", "absent")
+                    r, st = origm(*a, **k)
+                    seen["status"] = st
+                    return r, st
+
+                cfg = types.SimpleNamespace(get_decay=lambda *a, **k: None, get_amplitude=lambda *a, **k: amp, eval_amplitude=amp)
+                with mock.patch.object(S, "multi_sampling", wrapm):
+                    if via == "toy":
+                        ret = S.generate_toy(cfg, scn["N"], force=scn["force"], gen=phsp, importance_f=imp if scn["imp"] else None, max_N=scn["maxN"])
+                    else:
+                        ret = S.generate_toy_p(cfg, scn["N"], force=scn["force"], gen_p=phsp, importance_f=imp if scn["imp"] else None, max_N=scn["maxN"])
+                status = seen["status"]
+                rec["wrapper_max_weight"] = "None" if seen["max_weight"] is None else str(seen["max_weight"])
     except Stop:
         rec["error"] = "no-exit"
         return rec
@@ -189,8 +221,18 @@ def evs(s):
     return [tuple(int(x) for x in t.split(":")) for t in s.split(",")] if s else []
 
 
+def wrapper_scenarios(seed, n):
+    """generate_toy / generate_toy_p scenarios: the wrappers always start without a bound (config.max_amplitude is None)"""
+    out = []
+    for i, scn in enumerate(s for s in multi_scenarios(seed, 3 * n) if s["m0"] is None):
+        scn["via"] = "toy" if i % 2 == 0 else "toy_p"
+        out.append(scn)
+    return out[:n]
+
+
 def correspond_multi(ctx, res):
     scns = multi_scenarios(ctx.seed * 7919 + 20, 48 if ctx.quick else 1200)
+    scns += wrapper_scenarios(ctx.seed * 7919 + 22, 20 if ctx.quick else 300)
     lines, recs, used = ["C20s consts"], [], []
     for scn in scns:
         rec = run_multi(scn)
@@ -209,6 +251,10 @@ def correspond_multi(ctx, res):
             res.broke("model driver bad answer (multi)", line[:200])
             return
         nthin += sum(1 for b in rec["batches"] if len(b["thin"]))
+        if scn.get("via", "multi") != "multi":
+            res.coverage["generate_toy_wrapper_runs"] = res.coverage.get("generate_toy_wrapper_runs", 0) + 1
+            if rec.get("wrapper_max_weight") != "None":
+                res.broke("correspondence generate_toy wrappers: multi_sampling is started with a bound", {"scenario": scn, "max_weight": rec.get("wrapper_max_weight")})
         model = {
             "reqs": [int(x) for x in f[0].split()], "bounds": unbits(f[1]), "maxw": None if f[3] == "N" else C.h2f(f[3]),
             "N_gen": int(f[4]), "N_total": int(f[5]), "eff": C.h2f(f[6]), "done": f[7] == "1",
@@ -754,18 +800,163 @@ def correspond_interp_nd(ctx, res):
     return len(lines), nbad
 
 
+# =====================================================================================================
+# 6. np.percentile / single_split_bound cut points (template Percentile), Hist1D whole-histogram helpers (HistOps)
+# =====================================================================================================
+
+def record_splits(c):
+    """Run the real AdaptiveBound and record every single_split_bound call: (data, n, base_bound, returned bounds)."""
+    from unittest import mock
+    from tf_pwa.adaptive_bins import AdaptiveBound
+    data = bins_data(c)
+    spec = c["spec"]
+    calls = []
+    orig = AdaptiveBound.single_split_bound
+
+    def wrap(d, n=2, base_bound=None):
+        r = orig(d, n, base_bound)
+        calls.append({"data": [float(v) for v in np.asarray(d)], "n": int(n), "bounds": [(float(a), float(b)) for a, b in r]})
+        return r
+
+    with mock.patch.object(AdaptiveBound, "single_split_bound", staticmethod(wrap)):
+        adp = AdaptiveBound(data[0] if isinstance(spec, int) else data, spec)
+        try:
+            adp.get_bounds()
+        except (IndexError, ValueError):
+            if c["kind"] in (2, 3):
+                return calls, False
+            raise
+    return calls, True
+
+
+def perc_samples(seed, n):
+    rng = np.random.Generator(np.random.Philox(seed))
+    out = []
+    for t in range(n):
+        N = int(rng.choice([1, 2, 3, 5, 8, 40, 97, 256]))
+        kind = t % 5
+        if kind == 0:
+            d = rng.normal(size=N)
+        elif kind == 1:  # tie-heavy
+            d = rng.integers(0, 6, size=N) * 1.0
+        elif kind == 2:
+            d = rng.integers(0, 2 ** 10, size=N) / 64.0
+        elif kind == 3:
+            d = rng.uniform(0, 1, size=N) ** 3 * 1e3
+        else:  # clusters closer than 1e-6
+            d = rng.integers(0, 4, size=N) * 1.0 + rng.integers(0, 5, size=N) * 2.5e-7
+        nb = int(rng.choice([1, 2, 3, 4, 5, 7, 10]))
+        pct = float(rng.choice([0.0, 100.0, 50.0, float(rng.uniform(0, 100)), 100 * (1 - 2.0 ** -53), 25.0]))
+        out.append(([float(v) for v in d], nb, pct))
+    return out
+
+
+def correspond_percentile(ctx, res):
+    from tf_pwa.adaptive_bins import AdaptiveBound
+    lines, impl = ["C20p consts"], [None]
+    for d, nb, pct in perc_samples(ctx.seed * 53 + 11, 150 if ctx.quick else 3000):
+        lines.append("C20p perc %s %s" % (C.f2h(pct), bits(d)))
+        impl.append([float(np.percentile(np.array(d), pct))])
+        lines.append("C20p cuts %d %s" % (nb, bits(d)))
+        impl.append([float(b[1]) for b in AdaptiveBound.single_split_bound(np.array(d), nb)[:-1]])
+    # the cut points of every single_split_bound call inside real (nested) AdaptiveBound runs
+    ncalls = 0
+    for c in bins_cases(ctx.seed * 31 + 5, 22 if ctx.quick else 440):
+        calls, _ = record_splits(c)
+        for call in calls:
+            ncalls += 1
+            lines.append("C20p cuts %d %s" % (call["n"], bits(call["data"])))
+            impl.append([b[1] for b in call["bounds"][:-1]])
+    out = ctx.model.query(lines)
+    if out[0] != bits([100.0, 1e-6, 0.5]):
+        res.broke("correspondence Percentile constants", out[0])
+    nbad, first = 0, None
+    for ln, o, iv in list(zip(lines, out, impl))[1:]:
+        if o == "bad-op":
+            res.broke("model driver bad-op (percentile)", ln[:200])
+            return
+        mv = unbits(o)
+        if not same_bits(mv, iv):
+            nbad += 1
+            if first is None:
+                first = {"op": ln[:240], "impl": [repr(v) for v in iv][:8], "model": [repr(v) for v in mv][:8]}
+    res.coverage["percentile_lines"] = len(lines) - 1
+    res.coverage["percentile_single_split_calls_inside_adaptive_runs"] = ncalls
+    if nbad:
+        res.broke("correspondence PercentileF vs np.percentile / single_split_bound cut points", {"n": nbad, "first": first})
+    return len(lines) - 1, nbad
+
+
+def histops_cases(seed, n):
+    rng = np.random.Generator(np.random.Philox(seed))
+    out = []
+    for i in range(n):
+        n1 = int(rng.choice([1, 2, 3, 6, 12]))
+        n2 = n1 if i % 2 == 0 else int(rng.choice([1, 2, 4, 8]))
+        e1 = np.cumsum(rng.integers(1, 9, size=n1 + 1) / 4.0) + float(rng.integers(-8, 8))
+        e2 = e1.copy() if (i % 2 == 0 and i % 3) else np.cumsum(rng.integers(1, 9, size=n2 + 1) / 4.0)
+        c1 = rng.integers(-4, 40, size=n1) / 4.0
+        if c1.sum() == 0:
+            c1[0] += 1.0
+        r1 = 2.0 ** rng.integers(-2, 3, size=n1)   # powers of two: pulls and their squares are exact dyadic numbers
+        if i % 4 == 1:
+            r1[rng.integers(0, n1)] = np.inf
+        if i % 8 == 3:
+            r1[:] = np.inf
+        c2 = rng.integers(0, 64, size=n2) / 2.0
+        out.append({"e1": e1.tolist(), "c1": c1.tolist(), "r1": r1.tolist(), "e2": e2.tolist(), "c2": c2.tolist()})
+    return out
+
+
+def correspond_histops(ctx, res):
+    from tf_pwa.histogram import Hist1D
+    lines, impl = [], []
+    for c in histops_cases(ctx.seed * 19 + 2, 60 if ctx.quick else 1500):
+        e1, c1, r1, e2, c2 = (np.array(c[k], dtype=np.float64) for k in ("e1", "c1", "r1", "e2", "c2"))
+        n1, n2 = len(c1), len(c2)
+        with np.errstate(all="ignore"):
+            h = Hist1D(e1.copy(), c1.copy(), r1.copy())
+            o = Hist1D(e2.copy(), c2.copy(), np.sqrt(c2))
+            chi2, ndf = float(h.chi2()), int(h.ndf())
+            lines.append("C20g chi2 %d %s" % (n1, bits(list(c1) + list(r1) + [1.0 if np.isinf(v) else 0.0 for v in r1])))
+            impl.append([chi2, float(ndf)])
+            total, bw = float(h.get_count()), float(h.get_bin_weight())
+            fin = np.where(np.isinf(r1), 1.0, r1)   # inf * scale: keep the compared errors finite
+            h = Hist1D(e1.copy(), c1.copy(), fin.copy())
+            scale = float(h.scale_to(o))
+            lines.append("C20g scale %d %d %s" % (n1, n2, bits(list(e1) + list(c1) + list(fin) + list(e2) + list(c2))))
+            impl.append([scale, total, bw] + [float(v) for v in h.count] + [float(v) for v in h.error])
+    out = ctx.model.query(lines)
+    nbad, first = 0, None
+    for ln, o, iv in zip(lines, out, impl):
+        if o == "bad-op":
+            res.broke("model driver bad-op (histops)", ln[:200])
+            return
+        mv = unbits(o)
+        if not same_bits(mv, iv):
+            nbad += 1
+            if first is None:
+                first = {"op": ln[:200], "impl": [repr(v) for v in iv][:10], "model": [repr(v) for v in mv][:10]}
+    res.coverage["histops_lines"] = len(lines)
+    if nbad:
+        res.broke("correspondence HistOpsF vs Hist1D.scale_to/chi2/ndf/get_count/get_bin_weight", {"n": nbad, "first": first})
+    return len(lines), nbad
+
+
 def correspond(ctx, res):
     n1, _ = correspond_multi(ctx, res) or (0, 0)
     n2, _ = correspond_interp(ctx, res) or (0, 0)
     n3, _ = correspond_bins(ctx, res) or (0, 0)
     n4, _ = correspond_hist(ctx, res) or (0, 0)
     n5, _ = correspond_interp_nd(ctx, res) or (0, 0)
-    n4 += n5
+    n6, _ = correspond_percentile(ctx, res) or (0, 0)
+    n7, _ = correspond_histops(ctx, res) or (0, 0)
+    n4 += n5 + n6 + n7
     res.coverage.update({
         "traces_validated_against_impl": n1 + n2 + n3 + n4,
         "evaluations": n1 + n2 + n3 + n4,
         "distinct_nontrivial": res.coverage.get("multi_sampling_runs_with_thinning", 0) + n2 + n3 + n4,
-        "rule": "seeded scenarios: multi_sampling runs (8 weight/bound regimes incl. bound growth with thinning, exact ties, supplied bounds, importance_f) replayed bit-for-bit; LinearInterp grids (plateaus, zero nodes, slopes around epsilon) coefficient/solve/integral/call bit-for-bit; BWGenerator to 1e-12; AdaptiveBound boxes and membership matrices exact (incl. points on edges); Hist1D.histogram counts/errors exact with integer weights. non-trivial = runs with at least one thinning + all other cases",
+        "rule": "seeded scenarios: multi_sampling runs (8 weight/bound regimes incl. bound growth with thinning, exact ties, supplied bounds, importance_f) replayed bit-for-bit; LinearInterp grids (plateaus, zero nodes, slopes around epsilon) coefficient/solve/integral/call bit-for-bit; BWGenerator to 1e-12; AdaptiveBound boxes and membership matrices exact (incl. points on edges); Hist1D.histogram counts/errors exact with integer weights; np.percentile and single_split_bound cut points bit-for-bit (random, tie-heavy, 1e-6-clustered samples and all calls inside nested AdaptiveBound runs); Hist1D.scale_to/chi2/ndf bit-for-bit on dyadic data; generate_toy / generate_toy_p wrappers replayed through the Sampler model. non-trivial = runs with at least one thinning + all other cases",
         "exhaustive": False,
     })
 
@@ -1086,6 +1277,78 @@ def check_hist(c):
         bad.append(("Hist1D:mul", "Hist1D * 2.5 does not scale contents and errors by 2.5"))
     return bad
 
+def check_pops(c):
+    """populations_near_equal on the implementation (independent of the Lean model): for every single_split_bound call
+    of a real (nested) AdaptiveBound run, with N values, n bins, m = largest number of values in a window [v, v+1e-6]:
+    floor((N-1)k/n)+1 <= #{x < cut_k} <= floor((N-1)k/n)+1+m and floor((N-1)/n)-m <= population <= floor((N-1)/n)+1+m;
+    the bins of one call partition its data.  Ties included (kinds 2, 3)."""
+    try:
+        calls, complete = record_splits(c)
+    except Exception as e:
+        return [("AdaptiveBound:raises", "AdaptiveBound(bins=%s) raises %s: %s on continuous data (%d events)" % (c["spec"], type(e).__name__, e, c["n"]))]
+    bad = []
+    for call in calls:
+        d = np.sort(np.asarray(call["data"], dtype=np.float64))
+        N, n, bounds = len(d), call["n"], call["bounds"]
+        if N == 0:
+            continue
+        W = 1.000001e-6 + 8 * float(np.spacing(np.max(np.abs(d))))
+        m = int(np.max(np.searchsorted(d, d + W, side="right") - np.searchsorted(d, d, side="left")))
+        f = (N - 1) // n
+        if len(bounds) != max(n, 1):
+            bad.append(("AdaptiveBound:nbins", "single_split_bound(n=%d) returned %d bins" % (n, len(bounds))))
+            continue
+        pops = [int(np.sum((d >= lb) & (d < rb))) for lb, rb in bounds]
+        inside = int(np.sum((d >= bounds[0][0]) & (d < bounds[-1][1])))
+        if sum(pops) != inside:
+            bad.append(("AdaptiveBound:partition", "single_split_bound(n=%d): bin populations %s do not add up to the %d values inside the base bound" % (n, pops, inside)))
+        for k in range(1, n):
+            L = int(np.sum(d < bounds[k - 1][1]))
+            e = (N - 1) * k // n + 1
+            if not (e <= L <= e + m):
+                bad.append(("AdaptiveBound:cut-count", "single_split_bound(%d values, n=%d): %d values lie below cut %d (%r), expected %d..%d (largest 1e-6 cluster: %d)" % (N, n, L, k, bounds[k - 1][1], e, e + m, m)))
+                break
+        if inside == N:
+            for k, pk in enumerate(pops):
+                if not (f - m <= pk <= f + 1 + m):
+                    bad.append(("AdaptiveBound:populations", "single_split_bound(%d values, n=%d): bin %d holds %d values, expected %d..%d (largest 1e-6 cluster: %d); populations %s" % (N, n, k, pk, max(f - m, 0), f + 1 + m, m, pops)))
+                    break
+    return bad
+
+
+def check_histops(c):
+    """Hist1D.scale_to / chi2 / ndf / get_count / get_bin_weight against their definitions (independent of the model)."""
+    from tf_pwa.histogram import Hist1D
+    e1, c1, r1, e2, c2 = (np.array(c[k], dtype=np.float64) for k in ("e1", "c1", "r1", "e2", "c2"))
+    bad = []
+    with np.errstate(all="ignore"):
+        h = Hist1D(e1.copy(), c1.copy(), r1.copy())
+        o = Hist1D(e2.copy(), c2.copy(), np.sqrt(c2))
+        fin = ~np.isinf(r1)
+        want = float(sum((a / b) ** 2 for a, b in zip(c1[fin], r1[fin])))
+        chi2_0 = float(h.chi2())
+        if abs(chi2_0 - want) > 1e-12 * max(want, 1.0):
+            bad.append(("Hist1D:chi2", "chi2() = %r, sum of squared pulls over the bins with finite error = %r" % (chi2_0, want)))
+        if int(h.ndf()) != int(fin.sum()):
+            bad.append(("Hist1D:ndf", "ndf() = %r for %d bins with finite error" % (h.ndf(), int(fin.sum()))))
+        if abs(float(h.get_bin_weight()) - float(np.mean(np.diff(e1)))) > 1e-12 * abs(float(np.mean(np.diff(e1)))):
+            bad.append(("Hist1D:bin_weight", "get_bin_weight() = %r, mean bin width %r" % (h.get_bin_weight(), float(np.mean(np.diff(e1))))))
+        area_o = float(np.sum(c2)) * float(np.mean(np.diff(e2)))
+        h.error = np.where(fin, r1, 1.0)
+        err0 = h.error.copy()
+        scale = float(h.scale_to(o))
+        area_h = float(np.sum(h.count)) * float(np.mean(np.diff(e1)))
+        if abs(area_h - area_o) > 1e-9 * max(abs(area_o), 1.0):
+            bad.append(("Hist1D:scale_to", "after scale_to: sum(count) x mean bin width = %r, of the target %r" % (area_h, area_o)))
+        if np.any(np.abs(h.count - c1 * scale) > 1e-12 * (1 + np.abs(c1 * scale))) or np.any(np.abs(h.error - err0 * scale) > 1e-12 * (1 + np.abs(err0 * scale))):
+            bad.append(("Hist1D:scale_to-errors", "scale_to does not multiply contents and errors by the returned factor %r" % scale))
+        if scale != 0 and np.isfinite(scale):
+            h.error = np.where(fin, h.error, np.inf)
+            chi2_1 = float(h.chi2())
+            if abs(chi2_1 - chi2_0) > 1e-9 * max(chi2_0, 1.0):
+                bad.append(("Hist1D:chi2-scale", "chi2 changes under scale_to: %r -> %r" % (chi2_0, chi2_1)))
+    return bad
+
 
 def real_model_config():
     return {
@@ -1251,7 +1514,7 @@ def check_statistical(p):
     return bad
 
 
-CHECKS = {"interp_nd_mass": check_interp_nd_mass, "multi": check_multi, "li": check_li, "bw": check_bw, "interp_nd": check_interp_nd, "bins": check_bins,
+CHECKS = {"pops": check_pops, "histops": check_histops, "interp_nd_mass": check_interp_nd_mass, "multi": check_multi, "li": check_li, "bw": check_bw, "interp_nd": check_interp_nd, "bins": check_bins,
           "hist": check_hist, "real": check_real_model, "stat": check_statistical}
 
 
@@ -1285,6 +1548,12 @@ def search(ctx, res):
         _run(res, "bins", c, cnt)
     for c in hist_cases(ctx.seed * 17 + 10, 90 * f):
         _run(res, "hist", c, cnt)
+    for c in bins_cases(ctx.seed * 31 + 7, 44 * f):
+        _run(res, "pops", c, cnt)
+    for c in histops_cases(ctx.seed * 19 + 3, 60 * f):
+        _run(res, "histops", c, cnt)
+    for scn in wrapper_scenarios(ctx.seed * 7919 + 23, 16 * f):
+        _run(res, "multi", scn, cnt)
     _run(res, "real", {"N": 57 if ctx.quick else 400, "maxN": 40 if ctx.quick else 150, "seed": ctx.seed + 1}, cnt)
     if not ctx.quick:
         _run(res, "stat", {"n": 2000000, "seed": ctx.seed + 5}, cnt)
@@ -1315,7 +1584,7 @@ def replay(ctx, payload):
 
 
 MANIFEST = {
-    "text": "Lean theorems (all inputs / all histories): every event retained by the multi_sampling model has weight <= the bound it was accepted with and (starting without a supplied bound) <= the running max_weight, in every reachable state (induction over batches); the GenTest counter equals the number of retained events, every request is >= 1, and with force the result has exactly N events whenever the loop exits; LinearInterp: for strictly increasing nodes, node values >= 0, int_all > 0 and u in [0,1), integral(solve u) = u*int_all and x0 <= solve u <= x_last (the code's root of the in-bin quadratic is the one with k t + b >= 0; flat bins separately), integral(x0) = 0; BWGenerator: integral(solve u) - integral(m_min) = u*int_all and m_min <= solve u <= m_max; adaptive bins: for monotone cut chains every value of [c0,ck) lies in exactly one half-open bin and nested splitting (multi_split_bound / loop_split_bound) preserves 'exactly one box' (all depths, induction); weighted histogram: sum of bins = sum of in-range weights, sum of squared errors = sum of in-range squared weights (list induction), + - x scalar act linearly on contents and in quadrature on errors.",
-    "note": "Models: templates/Sampler.lean.in and templates/Interp.lean.in (one text, Float instance executed bit-for-bit against multi_sampling/single_sampling2/GenTest, LinearInterp, BWGenerator, Hist1D arithmetic on every run; R instance carries the theorems), Model/Bins.lean and Model/Hist.lean (polymorphic, executed at Rat on the exact rational value of every double against AdaptiveBound and Hist1D.histogram). Inputs of the models, not verified: proposal batches, weights, uniform streams, np.percentile cut points, np.histogram edges, np.digitize (modelled as linear scan). templates/InterpND.lean.in models InterpND/InterpNDHist after the fix commits (table with cell volumes, build_coeffs numbering, decode arithmetic, generate from supplied uniforms) and is executed bit-for-bit against them; theorems interp_nd_in_range, interp_nd_selected_entry, interp_nd_bin_mass (iterated integral of the multilinear interpolant, all dimensions), build_coeffs_numbering, within_cell_inverse_cdf, within_cell_mixture. Validated on the implementation only: near-equal bin populations, generate_toy/generate_toy_p on one real three-body model (exact count, on-shell, momentum conservation, weight <= bound), and 'the sample follows the density' (chi-square at p<=1e-9, thorough tier only). Known finding on the unchanged tree (listed, patch fixes/C20-fix_linear_interp_sqrt_clip.diff): LinearInterp.solve returns NaN when u*int_all is within rounding distance of the cumulative value at a zero-density node of a sloped bin (sqrt of a rounded-negative radicand); the model mirrors the unclipped code, the correspondence skips exactly the points where the model is NaN, so the check passes on both the unfixed and the fixed tree. Two more listed findings (patch fixes/C20-fix_interp_nd_cell_volume.diff): the cumulative tables of InterpND and InterpNDHist omit the cell volume, so on NON-uniform grids generate() does not follow the object's own density (exact on uniform grids, the only use in the repository); the search compares the table with the integral of the density on uniform and non-uniform grids and keys the non-uniform failures separately. Fourth listed finding (patch fixes/C20-fix_interp_nd_corner_order.diff): in >= 2 dimensions InterpND numbers corner weights and corner sampling shapes with opposite bit order, so within a cell the sample follows the interpolant with transposed corner values; found by the thorough chi-square test, reproduced deterministically by the search (selected corner vs corner the point is drawn towards).",
-    "technique": "Lean 4 proof (induction over batches / cut lists / event lists, real algebra of the in-bin quadratic, tan/arctan) + bit-exact differential correspondence with recorded random streams + model-independent oracle search",
+    "text": "Lean theorems (all inputs / all histories): every event retained by the multi_sampling model has weight <= the bound it was accepted with and (starting without a supplied bound) <= the running max_weight, in every reachable state (induction over batches); the GenTest counter equals the number of retained events, every request is >= 1, and with force the result has exactly N events whenever the loop exits; LinearInterp: for strictly increasing nodes, node values >= 0, int_all > 0 and u in [0,1), integral(solve u) = u*int_all and x0 <= solve u <= x_last (the code's root of the in-bin quadratic is the one with k t + b >= 0; flat bins separately), integral(x0) = 0; BWGenerator: integral(solve u) - integral(m_min) = u*int_all and m_min <= solve u <= m_max; adaptive bins: for monotone cut chains every value of [c0,ck) lies in exactly one half-open bin and nested splitting (multi_split_bound / loop_split_bound) preserves 'exactly one box' (all depths, induction); weighted histogram: sum of bins = sum of in-range weights, sum of squared errors = sum of in-range squared weights (list induction), + - x scalar act linearly on contents and in quadrature on errors. NEW (C20e, all samples incl. ties, all n >= 1): np.percentile is MODELLED (templates/Percentile.lean.in) and its order-statistic contract proved: #{x < p} <= floor((N-1)k/n)+1 <= #{x <= p}, numpy's two _lerp branches are the same linear interpolation, the model's sort is a sort; the k-th cut of single_split_bound (percentile + 1e-6) has between floor((N-1)k/n)+1 and floor((N-1)k/n)+1+m values below it, and populations_near_equal: every bin of single_split_bound(data, n, (lb, rb)) holds between floor((N-1)/n)-m and floor((N-1)/n)+1+m values, m = the largest number of values in a window [v, v+1e-6) (m = 1 for 1e-6-separated values: floor or ceil of N/n up to +-1; with ties the deviation is bounded by the multiplicity), without assuming a monotone cut chain; the hypotheses are inherited by the masked sub-sample of every bin (sub_sample_inherits), two-level statement nested_populations, and nested_multiplies_out: along every root-to-leaf path of a nested splitting the leaf population lies between the multiplied-out bounds (induction over the depth). NEW (C20f): accept_interval (a proposal of weight w with bound M is accepted exactly for u < w/M), accept_count_grid (on the grid u = j/K exactly ceil(K w/M) of K grid points accept, every K; fraction within 1/K of w/M), thinning_ratio / thinning_count_grid (retained exactly for u < m/M, ceil(K m/M) grid points), step_growth (multi_sampling thins with book-keeping bound / new acceptance bound and books M*1.05), composed_acceptance (through every linked bound history the interval lengths multiply to w * prod(c) / M_final), composed_acceptance_proportional, composed_acceptance_history (only the final bound and the product of book-keeping factors matter, not the order in which the bound grew). NEW (C20g): hist_scale_to_conserves (after scale_to, sum(count) x mean bin width equals that of the target; equal binning: equal totals), scale_to = multiplication of contents and errors by one factor, get_bin_weight = mean bin width (telescoping), chi2 >= 0, chi2 invariant under scale_to / * c (c != 0), ndf counts the finite-error bins.",
+    "note": "Models: templates/Sampler.lean.in and templates/Interp.lean.in (one text, Float instance executed bit-for-bit against multi_sampling/single_sampling2/GenTest, LinearInterp, BWGenerator, Hist1D arithmetic on every run; R instance carries the theorems), Model/Bins.lean and Model/Hist.lean (polymorphic, executed at Rat on the exact rational value of every double against AdaptiveBound and Hist1D.histogram). Inputs of the models, not verified: proposal batches, weights, uniform streams, np.percentile cut points, np.histogram edges, np.digitize (modelled as linear scan). templates/InterpND.lean.in models InterpND/InterpNDHist after the fix commits (table with cell volumes, build_coeffs numbering, decode arithmetic, generate from supplied uniforms) and is executed bit-for-bit against them; theorems interp_nd_in_range, interp_nd_selected_entry, interp_nd_bin_mass (iterated integral of the multilinear interpolant, all dimensions), build_coeffs_numbering, within_cell_inverse_cdf, within_cell_mixture. templates/Percentile.lean.in (np.percentile 'linear' + single_split_bound cut points; Float instance bit-for-bit against np.percentile on random, tie-heavy and 1e-6-clustered samples and against every single_split_bound call inside nested AdaptiveBound runs) and templates/HistOps.lean.in (scale_to, chi2, ndf, get_count, get_bin_weight; Float instance bit-for-bit on dyadic data) are new; the wrappers ConfigLoader.generate_toy / generate_toy_p are replayed bit-for-bit through the Sampler model on recorded streams (stub configuration; they must start multi_sampling without a bound). The search checks populations_near_equal, the cut-count contract and the partition on every single_split_bound call of real nested runs (ties included), scale_to / chi2 / ndf against their definitions, and the multi_sampling statements through the wrappers. Validated on the implementation only: generate_toy/generate_toy_p on one real three-body model (exact count, on-shell, momentum conservation, weight <= bound), the uniformity/independence of tf.random.uniform behind 'the sample follows the density' (chi-square at p<=1e-9, thorough tier only; its algebraic core is C20f), applications.gen_data / gen_mc (not modelled). Known finding on the unchanged tree (listed, patch fixes/C20-fix_linear_interp_sqrt_clip.diff): LinearInterp.solve returns NaN when u*int_all is within rounding distance of the cumulative value at a zero-density node of a sloped bin (sqrt of a rounded-negative radicand); the model mirrors the unclipped code, the correspondence skips exactly the points where the model is NaN, so the check passes on both the unfixed and the fixed tree. Two more listed findings (patch fixes/C20-fix_interp_nd_cell_volume.diff): the cumulative tables of InterpND and InterpNDHist omit the cell volume, so on NON-uniform grids generate() does not follow the object's own density (exact on uniform grids, the only use in the repository); the search compares the table with the integral of the density on uniform and non-uniform grids and keys the non-uniform failures separately. Fourth listed finding (patch fixes/C20-fix_interp_nd_corner_order.diff): in >= 2 dimensions InterpND numbers corner weights and corner sampling shapes with opposite bit order, so within a cell the sample follows the interpolant with transposed corner values; found by the thorough chi-square test, reproduced deterministically by the search (selected corner vs corner the point is drawn towards).",
+    "technique": "Lean 4 proof (induction over batches / cut lists / event lists / sorted samples / split depth, exact counting on uniform grids, real algebra of the in-bin quadratic, tan/arctan) + bit-exact differential correspondence with recorded random streams + model-independent oracle search",
 }
